@@ -195,7 +195,10 @@ class C19(Check):
             "2-3 threads each doing a first use + construction + helper call under one seeded schedule (bounded "
             "pre-emptions d<=3 at library line events biased to the bootstrap code, PCT-like priorities, random "
             "switching, pre-emption only at lock acquisitions / releases, or d<=4 targets 'thread t at its n-th visit of "
-            "line L / lock operation'). Non-trivial = at least one pre-emptive switch happened while another thread was inside "
+            "line L / lock operation'; in two set-ups part of the hierarchy's history precedes the threads: parent bootstrapped by a "
+            "metadata lookup, or the hierarchy first used through a subclass whose own __new__ bypasses the parent's). The oracle "
+            "is the eager sequential twin: thread results (incl. whether the helpers are visible right after a metadata / fields "
+            "lookup), canonical class descriptions, the log of user __new__ calls with what each was handed. Non-trivial = at least one pre-emptive switch happened while another thread was inside "
             "bootstrap-related code; distinct_nontrivial = distinct (first-use tuple, sorted pre-emption sites).")
     COMPONENTS_STUBBED = Check.COMPONENTS_STUBBED + [
         "OS thread scheduler (baton passing; pre-emption at sys.settrace line events)",
